@@ -101,7 +101,8 @@ def cases(rng, tier):
             out.append(("large_one_h%d_%d" % (hf, j), movie_with(u), {"title": "Titre \u00e9".encode(), "year": 1999, "poster": b"\xff\xd8\xff\xe0" * 9, "summary": b"summary"}))
     for i, ytxt in enumerate((b"", b"+1999", b"02024", b" 2024", b"2024 ", b"4294967296", b"2024-05-17", b"-0", b"+")):
         out.append(("year_text_%d" % i, movie_with(isogen.udta([isogen.meta([isogen.ilst([isogen.ilst_item(isogen.YEAR, 1, ytxt)])])])), None))
-    for i, (dt, pl) in enumerate(((0, b"\x07\xe8"), (0, b"\0\0\x07\xe8\0"), (21, b"\0\0\x07\xe8"), (13, b"\0\0\x07\xe8"))):
+    for i, (dt, pl) in enumerate(((0, b"\x07\xe8"), (0, b"\0\0\x07\xe8\0"), (21, b"\0\0\x07\xe8"), (13, b"\0\0\x07\xe8"), (0, b""), (0, b"\x07"), (0, b"\0\x07\xe8"),
+                                 (21, b""), (13, b""), (0, b"\xff\xff\xff\xff"), (0, b"\0" * 8))):
         out.append(("year_bin_%d" % i, movie_with(isogen.udta([isogen.meta([isogen.ilst([isogen.ilst_item(isogen.YEAR, dt, pl)])])])), None))
     out.append(("dup_title", movie_with(isogen.udta([isogen.meta([isogen.ilst([isogen.ilst_item(isogen.TITLE, 1, b"first"), isogen.ilst_item(isogen.TITLE, 1, b"second")])])])), None))
     out.append(("no_udta", movie_with(None), {}))
